@@ -338,6 +338,126 @@ def insert_accept(eng, res, rule="R-INSERT-ACCEPT"):
            ok, f"sources: {[x[-60:] for x in srcs]}")
 
 
+# ---------------------------------------------------------------------------------------------- R-INSERT-COND
+class _Subst(ast.NodeTransformer):
+    """len(self._elements) -> __n ; len(<local>.bond_descriptors) -> __d ; a local with constant definitions -> its
+    conditional-constant term."""
+
+    def __init__(self, fl, at):
+        self.fl, self.at, self.unknown = fl, at, []
+
+    def visit_Call(self, n):
+        if isinstance(n.func, ast.Name) and n.func.id == "len" and len(n.args) == 1:
+            a = n.args[0]
+            if isinstance(a, ast.Attribute) and a.attr == "_elements" and isinstance(a.value, ast.Name) and a.value.id == "self":
+                return ast.Name("__n", ast.Load())
+            if isinstance(a, ast.Attribute) and a.attr == "bond_descriptors" and isinstance(a.value, ast.Name) and self.fl.is_local(a.value.id):
+                return ast.Name("__d", ast.Load())
+        return self.generic_visit(n)
+
+    def visit_Name(self, n):
+        if n.id in ("__n", "__d") or not self.fl.is_local(n.id):
+            return n
+        t = _const_term(self.fl, n.id, self.at)
+        if t is None:
+            self.unknown.append(n.id)
+            return n
+        return _Subst(self.fl, self.at).visit(t)
+
+
+def _const_term(fl, name, at):
+    """Conditional-constant term of a local all of whose reaching definitions are constants (or conditional
+    expressions): the definition that dominates the others is the default, the others apply under their own
+    If-guards.  None when the local is anything else."""
+    import copy
+
+    cfg = fl.cfg
+    defs = fl.reaching(name, at)
+    if not defs or any(d.kind != "assign" or d.value is None for d in defs):
+        return None
+    for d in defs:
+        v = d.value
+        if not (isinstance(v, ast.Constant) or (isinstance(v, ast.IfExp) and isinstance(v.body, ast.Constant) and isinstance(v.orelse, ast.Constant))):
+            return None
+    base = [d for d in defs if all(cfg.must_pass(d.nid, o.nid) for o in defs)]
+    if len(base) != 1:
+        return None
+    base = base[0]
+    term = copy.deepcopy(base.value)
+    g0 = cfg.guards(base.nid)
+    rest = sorted([d for d in defs if d is not base], key=lambda d: d.nid)
+    for d in rest:
+        tests = []
+        for gn, label in sorted(cfg.guards(d.nid) - g0):
+            st = cfg.nodes[gn].stmt
+            if not isinstance(st, ast.If):
+                return None
+            t = copy.deepcopy(cfg.test_of(st, gn))
+            tests.append(t if label == "T" else ast.UnaryOp(ast.Not(), t))
+        if not tests:
+            return None
+        cond = tests[0] if len(tests) == 1 else ast.BoolOp(ast.And(), tests)
+        term = ast.IfExp(cond, copy.deepcopy(d.value), term)
+    return ast.fix_missing_locations(term)
+
+
+def insert_conditions(eng, res, rule="R-INSERT-COND"):
+    """A-FINITE over (n = number of elements parsed so far, d = descriptors the token carries): the constructor
+    inserts an incoming descriptor iff n > 0 and d == 0, and an outgoing one iff d < (1 if n == 0 else 2) — so a token
+    ends with exactly one descriptor per neighbour, and a canonical string (which carries them all) gets none."""
+    import copy
+    from .c03 import _ev
+
+    mol = eng.prog.func("molecule.Molecule.__init__")
+    res.unit(mol)
+    fl = eng.flow(mol)
+    cfg = fl.cfg
+    n_sites = 0
+    for c in calls(mol, "_create_compatible_bond_text"):
+        nid = cfg.node_of(c)
+        arg = src(fl.expand(c.args[0], nid, depth=3))
+        outgoing = "left_terminal" in arg
+        conj, skipped, bad = [], [], []
+        for gn, label in sorted(cfg.guards(nid)):
+            st = cfg.nodes[gn].stmt
+            if not isinstance(st, ast.If):
+                continue
+            sub = _Subst(fl, gn)
+            t = sub.visit(copy.deepcopy(cfg.test_of(st, gn)))
+            names = {x.id for x in ast.walk(t) if isinstance(x, ast.Name)}
+            if names and names <= {"__n", "__d"}:
+                conj.append((t, label == "T"))
+            elif names & {"__n", "__d"}:
+                bad.append(src(t))
+            else:
+                skipped.append(src(t))
+        table = {}
+        why = ""
+        try:
+            for n in range(4):
+                for d in range(4):
+                    env = {"__n": n, "__d": d}
+                    table[(n, d)] = all(bool(_ev(t, env)) == pol for t, pol in conj)
+        except AnalysisError as e:
+            bad.append(str(e))
+        if outgoing:
+            want = {(n, d): d < (1 if n == 0 else 2) for n in range(4) for d in range(4)}
+            text = "an outgoing descriptor (towards the next object) is inserted iff the token carries fewer than 1 (first element) / 2 (connector) descriptors"
+        else:
+            want = {(n, d): n > 0 and d == 0 for n in range(4) for d in range(4)}
+            text = "an incoming descriptor (towards the previous element) is inserted iff there is a previous element and the token carries none"
+        ok = not bad and table == want
+        if bad:
+            why = f"condition mixes the counts with other terms: {bad[:2]}"
+        elif not ok:
+            diff = sorted(k for k in want if table.get(k) != want[k])
+            why = f"differs for (elements so far, descriptors on the token) = {diff[:4]}; conditions: {[('' if p else 'not ') + src(t) for t, p in conj]}"
+        res.ob(rule, mol, f"insert-cond:{'outgoing' if outgoing else 'incoming'}@{'loop' if cfg.enclosing_loops(c) else 'tail'}", text, c, ok, why)
+        n_sites += 1
+    res.floor(rule, n_sites, 3)
+    return n_sites
+
+
 def check(eng, res):
     res.doc("R-EXT-THREAD", "children are printed with exactly the caller's extension flag; __str__ = generate_string(True)")
     res.doc("R-EXT-ERASE", "A-TEMPLATE: T(False) == erase(T(True)) for all 13 printers; no '|' without extensions; trims match separators")
@@ -363,6 +483,8 @@ def check(eng, res):
     iter_types(eng, res)
     lookahead(eng, res)
     insert_accept(eng, res)
+    res.doc("R-INSERT-COND", "descriptors are inserted exactly when the token lacks the one for that neighbour (finite table over element count x descriptor count)")
+    insert_conditions(eng, res)
     res.assumptions += [
         "holes inside |…| print as numbers that float() reads back; raw atom text contains no '|'",
         "printer bodies are in the fragment A-TEMPLATE evaluates (anything else is exit 2)",
